@@ -21,7 +21,7 @@ func init() {
 			"C10.4 stream reads are full reads: every Read on a net.Conn in the module has its byte count used as the bound of the bytes consumed (a discarded count, or a count compared for equality with the buffer size as an error test, assumes segmentation); the ConnectionBind reply is read from the data connection only through io.ReadFull with exactly-sized buffers and the connection is not handed to a buffering reader; " +
 			"C10.5 the verdict 'not a TURN frame' does not depend on the declared length field or on how many payload bytes have arrived (only on the header bytes that classify the frame and on the header-size thresholds); " +
 			"C10.6 that verdict is reached only after ChannelNumber.Valid (the module's one range predicate) has refused the leading 16 bits: the framer has no second notion of which channel numbers exist; " +
-			"C10.7 the reassembly buffer STUNConn.buff is written by ReadFrom (and its helpers) only: no accessor or other method takes bytes out of it or resets it between two reads.",
+			"C10.7 the reassembly buffer STUNConn.buff is written by ReadFrom (and its helpers) only: no accessor or other method takes bytes out of it or resets it between two reads. C10.8 STUNConn.ReadFrom refuses only by handing on the error of the connection or of the framer.",
 		NotCovered: "segmentation independence as a whole and frame ordering are dynamic; behaviour of net.Conn.Read and of pion/stun's IsMessage beyond its inlined shape.",
 		Run:        runC10,
 	})
@@ -50,6 +50,7 @@ func runC10(c *Ctx) {
 
 	ruleFramerClassification(c, "C10.6")
 	ruleReassemblyBufferOwner(c, "C10.7")
+	ruleFramerRefusals(c, "C10.8")
 
 	// ---- C10.2
 	c.Rule("C10.2", "contradiction rule: a return of the 'incomplete' error guarded only by len(b) < K (no classification fact yet) requires K ≤ the lower bound of the frame size on the nil-error returns of the same function", 1)
